@@ -1147,3 +1147,541 @@ Proof.
   split; [intros; reflexivity|]. split; [intros; reflexivity|]. split; [intros; reflexivity|].
   intros c0 bin toks NB. unfold parse_top. rewrite NB. reflexivity.
 Qed.
+
+(** * Short spellings: [-o v] = [-ov] = [-o=v], and clusters *)
+Section Short.
+Variable c : cmd.
+
+Lemma to_short_facts s r : to_short s = Some r -> to_long s = None /\ is_escape s = false.
+Proof.
+  unfold to_short, to_long, is_escape, strip_prefix, DASH.
+  destruct s as [|x t]; [discriminate|]. cbn [starts_with length skipn].
+  destruct (x =? 45) eqn:X; cbn [andb]; [|discriminate].
+  apply N.eqb_eq in X. subst x.
+  destruct t as [|y u]; cbn [starts_with is_nil andb].
+  { intros H; discriminate H. }
+  replace (starts_with u []) with true by (destruct u; reflexivity). rewrite !andb_true_r.
+  destruct (y =? 45) eqn:Y; [intros H; discriminate H|].
+  intros _. split; [reflexivity|]. cbn [beq]. rewrite Y. apply andb_false_r.
+Qed.
+
+(** the loop looks at [tok] as a short cluster *)
+Definition short_site (ls : lstate) (tok : bytes) : Prop :=
+  l_trailing ls = false /\ l_pst ls = PSValuesDone /\ no_hyphen_pos c (l_pos ls) /\
+  possible_subcommand c tok (l_vaf ls) = None.
+
+Lemma phase1_short rec rest ls tok r st :
+  short_site ls tok -> to_short tok = Some r -> fs_skip st = 0 ->
+  phase1 c rec rest tok ls st =
+  (do x <- short_loop c (S (length r)) r PRNoArg (l_vaf ls) st; after_short c rec rest tok ls x).
+Proof.
+  intros [T [PV [NH PS]]] TS FS. destruct (to_short_facts _ _ TS) as [TL E].
+  unfold phase1. rewrite T. cbv zeta. rewrite PS, if_same. unfold classify. rewrite E, TL, TS, PV.
+  rewrite (parse_short_arg_clean c r (l_pos ls) (l_vaf ls) st FS NH), (skip0_eta st FS). reflexivity.
+Qed.
+
+Lemma pov_none_result idn a st x : a_req_eq a = false ->
+  parse_opt_value c idn None a false st = ROk x -> snd x = PROpt (a_id a).
+Proof.
+  intros RE. unfold parse_opt_value. rewrite RE. cbn [andb].
+  destruct (resolve_pending c st); cbn [rbind]; try discriminate.
+  destruct (pending_values_push _ _ _ _ _); cbn [expect rbind]; try discriminate.
+  intros H; inversion H; reflexivity.
+Qed.
+
+(** [-o v] and [-ov] *)
+Theorem short_space_vs_att ch a r b t rA rB tokA tokB rest ls st x0 :
+  is_set s_sub_precedence c = false ->
+  short_site ls tokA -> short_site ls tokB ->
+  to_short tokA = Some rA -> sf_next rA = Some (inl ch, b :: t) -> b <> 61 ->
+  to_short tokB = Some rB -> sf_next rB = Some (inl ch, []) ->
+  get_short c ch = Some a -> single_opt c a r -> plain_value a (b :: t) -> fs_skip st = 0 ->
+  react c (Some IShort) SCmdLine a [b :: t] None st = ROk x0 ->
+  res_rel c (parse_loop c (tokB :: (b :: t) :: rest) ls st) (parse_loop c (tokA :: rest) ls st).
+Proof.
+  intros SP SA SB TA NA NB TB NB' GS SO PV FS R.
+  pose proof SO as [TV [RE _]].
+  rewrite !parse_loop_cons. unfold iteration.
+  rewrite (phase1_short _ _ ls tokA rA st SA TA FS), (phase1_short _ _ ls tokB rB st SB TB FS).
+  rewrite (short_loop_opt_attached c (length rA) rA ch a b t PRNoArg (l_vaf ls) st NA NB GS TV RE).
+  rewrite (short_loop_opt_alone c (length rB) rB ch a PRNoArg (l_vaf ls) st NB' GS TV).
+  pose proof (parse_opt_value_attached c IShort (b :: t) a false st RE) as PA.
+  pose proof (opt_then_value c IShort a r (b :: t) rest tokB ls st x0 SP SO PV FS R) as K.
+  destruct (parse_opt_value c IShort None a false st) as [[st1 pr1]|e s|n] eqn:P.
+  - pose proof (pov_none_result IShort a st _ RE P) as E. cbn [snd] in E. subst pr1.
+    unfold bytes in *. rewrite PA, R.
+    unfold finish_iter at 2. cbn [rbind fst snd after_short after_flag] in *. exact K.
+  - unfold bytes in *. rewrite PA, R.
+    unfold finish_iter at 2. cbn [rbind fst snd after_short after_flag] in *. exact K.
+  - unfold bytes in *. rewrite PA, R.
+    unfold finish_iter at 2. cbn [rbind fst snd after_short after_flag] in *. exact K.
+Qed.
+
+(** [-o=v] and [-ov]: equal results *)
+Theorem short_eq_vs_att ch a b t rA rC tokA tokC rest ls st :
+  short_site ls tokA -> short_site ls tokC ->
+  to_short tokA = Some rA -> sf_next rA = Some (inl ch, b :: t) -> b <> 61 ->
+  to_short tokC = Some rC -> sf_next rC = Some (inl ch, 61 :: b :: t) ->
+  get_short c ch = Some a -> a_takes_value a = true -> a_req_eq a = false -> fs_skip st = 0 ->
+  parse_loop c (tokC :: rest) ls st = parse_loop c (tokA :: rest) ls st.
+Proof.
+  intros SA SC TA NA NB TC NC GS TV RE FS.
+  rewrite !parse_loop_cons. unfold iteration.
+  rewrite (phase1_short _ _ ls tokA rA st SA TA FS), (phase1_short _ _ ls tokC rC st SC TC FS).
+  rewrite (short_eq_strip c (length rC) (length rA) rC rA ch a (b :: t) PRNoArg (l_vaf ls) st NC NA) by (try assumption; discriminate).
+  rewrite (short_loop_opt_attached c (length rA) rA ch a b t PRNoArg (l_vaf ls) st NA NB GS TV RE).
+  destruct (parse_opt_value c IShort (Some (b :: t)) a false st) as [[st1 pr1]|e s|n]; reflexivity.
+Qed.
+End Short.
+
+(** ** clusters: [-a<rest>] = [-a] [-<rest>] *)
+Section Cluster.
+Variable c : cmd.
+
+(** the class of C01's totality theorem: no short flag-subcommands (their resume logic re-reads the
+    cluster token, so the token itself is part of the loop result) *)
+Definition no_short_subs : Prop := forall ch, find_short_subcmd c ch = None.
+
+(** the answers with which the cluster walk ends an iteration without going on to the positional phase *)
+Definition loop_kind (pr : presult) : Prop :=
+  match pr with
+  | PRValuesDone | PROpt _ | PREqualsNotProvided _ | PRNoMatchingArg _ => True
+  | _ => False
+  end.
+
+Lemma pov_kinds idn att a he st x : parse_opt_value c idn att a he st = ROk x ->
+  (snd x = PRAttachedNotConsumed /\ att <> None) \/ loop_kind (snd x).
+Proof.
+  unfold parse_opt_value. destruct (a_req_eq a && negb he).
+  - destruct (a_num a) as [r|]; cbn [expect rbind]; [|discriminate].
+    destruct (vmin r =? 0).
+    + destruct (react c (Some idn) SCmdLine a [] None st) as [y|e s|n]; cbn [rbind]; try discriminate.
+      intros H; inversion H; subst. cbn [snd]. destruct att; cbn [is_some]; [left; split; [reflexivity|discriminate]|right; exact I].
+    + intros H; inversion H; subst. right. exact I.
+  - destruct att as [v|].
+    + destruct (react c (Some idn) SCmdLine a [v] None st) as [y|e s|n]; cbn [rbind]; try discriminate.
+      intros H; inversion H; subst. right. exact I.
+    + destruct (resolve_pending c st) as [s1|e s|n]; cbn [rbind]; try discriminate.
+      destruct (pending_values_push _ _ _ _ _); cbn [expect rbind]; try discriminate.
+      intros H; inversion H; subst. right. exact I.
+Qed.
+
+Lemma short_loop_kind : no_short_subs -> forall fuel r ret vaf st st' pr v',
+  r <> [] \/ loop_kind ret ->
+  short_loop c fuel r ret vaf st = ROk (st', pr, v') -> loop_kind pr.
+Proof.
+  intros NS. induction fuel as [|f IH]; intros r ret vaf st st' pr v' HR; [discriminate|].
+  cbn [short_loop].
+  destruct (sf_next r) as [[[ch|rst] r']|] eqn:N.
+  - destruct (get_short c ch) as [a|].
+    + destruct (negb (a_takes_value a)).
+      * destruct (react c (Some IShort) SCmdLine a [] None st) as [[s1 p1]|e s|n] eqn:R; cbn [rbind fst snd]; try discriminate.
+        apply react_ok_pr in R. subst p1. apply IH. right. exact I.
+      * destruct r' as [|b t].
+        -- cbv beta iota zeta.
+           destruct (parse_opt_value c IShort None a false st) as [x|e s|n] eqn:P; cbn [rbind]; try discriminate.
+           destruct (pov_kinds _ _ _ _ _ _ P) as [[E NN]|K]; [congruence|].
+           destruct (snd x) eqn:SX; cbn in K; try contradiction; intros H; inversion H; subst; exact I.
+        -- rewrite strip_eq_match.
+           destruct (b =? 61); cbv beta iota zeta;
+           (match goal with |- context [parse_opt_value ?a1 ?a2 ?a3 ?a4 ?a5 ?a6] =>
+              destruct (parse_opt_value a1 a2 a3 a4 a5 a6) as [x|e s|n] eqn:P end; cbn [rbind]; try discriminate;
+            destruct (pov_kinds _ _ _ _ _ _ P) as [[E NN]|K];
+            [rewrite E; apply IH; left; discriminate
+            |destruct (snd x) eqn:SX; cbn in K; try contradiction; intros H; inversion H; subst; exact I]).
+    + rewrite (NS ch). intros H; inversion H; subst. exact I.
+  - intros H; inversion H; subst. exact I.
+  - intros H; inversion H; subst. destruct HR as [HR|HR]; [|exact HR].
+    exfalso. unfold sf_next in N. destruct r; [congruence|]. destruct (utf8_step (n :: r)) as [[? ?]|]; discriminate.
+Qed.
+
+Lemma after_short_kind rec rest tok tok' ls ls' s pr v :
+  loop_kind pr -> l_pst ls = l_pst ls' -> l_pos ls = l_pos ls' ->
+  finish_iter c rec rest tok (after_short c rec rest tok ls (s, pr, v)) =
+  finish_iter c rec rest tok' (after_short c rec rest tok' ls' (s, pr, v)).
+Proof.
+  intros K E1 E2. destruct pr; cbn in K; try contradiction; unfold after_short, after_flag, finish_iter;
+    rewrite <- ?E1, <- ?E2; try reflexivity;
+    destruct (resolve_pending_ignore c s); reflexivity.
+Qed.
+
+Theorem cluster_vs_split ch a r r1 r2 tok tok1 tok2 rest ls st :
+  no_short_subs ->
+  short_site c ls tok -> short_site c ls tok1 -> possible_subcommand c tok2 true = None ->
+  to_short tok = Some r -> sf_next r = Some (inl ch, r2) -> r2 <> [] ->
+  to_short tok1 = Some r1 -> sf_next r1 = Some (inl ch, []) -> to_short tok2 = Some r2 ->
+  get_short c ch = Some a -> a_takes_value a = false -> fs_skip st = 0 ->
+  parse_loop c (tok :: rest) ls st = parse_loop c (tok1 :: tok2 :: rest) ls st.
+Proof.
+  intros NS S0 S1 PS2 T0 N0 NE T1 N1 T2 GS TV FS.
+  rewrite (parse_loop_cons c tok), (parse_loop_cons c tok1). unfold iteration.
+  rewrite (phase1_short c _ _ ls tok r st S0 T0 FS), (phase1_short c _ _ ls tok1 r1 st S1 T1 FS).
+  rewrite (cluster_split c r r1 r2 ch a PRNoArg (l_vaf ls) st N0 N1 NE GS TV).
+  rewrite (short_loop_flag_step c (length r1) r1 ch [] a PRNoArg (l_vaf ls) st N1 GS TV).
+  assert (L1 : (0 < length r1)%nat) by (apply sf_next_shrinks' in N1; lia).
+  destruct (length r1) as [|k]; [lia|].
+  destruct (react c (Some IShort) SCmdLine a [] None st) as [[s1 p1]|e s|n] eqn:R; cbn [rbind fst snd]; try reflexivity.
+  change (short_loop c (S k) [] p1 true s1) with (ROk (A := ps * presult * bool) (s1, p1, true)).
+  cbn [rbind fst snd].
+  pose proof (react_fs _ _ _ _ _ _ _ _ _ R) as FS1. rewrite FS in FS1.
+  apply react_ok_pr in R. subst p1.
+  unfold finish_iter at 2. unfold after_short at 2. unfold after_flag. cbn [rbind].
+  (* the second token of the split line *)
+  destruct S0 as [T [PV [NH _]]].
+  assert (S2 : short_site c (mkL PSValuesDone (l_pos ls) true false) tok2).
+  { split; [reflexivity|]. split; [reflexivity|]. split; [exact NH|exact PS2]. }
+  rewrite (parse_loop_cons c tok2). unfold iteration.
+  rewrite (phase1_short c _ _ _ tok2 r2 s1 S2 T2 FS1). cbn [l_vaf].
+  destruct (short_loop c (S (length r2)) r2 PRNoArg true s1) as [[[s2 p2] v2]|e s|n] eqn:SL; cbn [rbind]; try reflexivity.
+  apply (after_short_kind (parse_loop c rest) rest tok tok2 ls (mkL PSValuesDone (l_pos ls) true false) s2 p2 v2).
+  - apply (short_loop_kind NS _ _ _ _ _ _ _ _ (or_introl NE) SL).
+  - exact PV.
+  - reflexivity.
+Qed.
+End Cluster.
+
+(** ** alias = canonical name, unique prefix = full name *)
+Section Names.
+Variable c : cmd.
+
+(** two long spellings that the lookup resolves to the same argument (alias vs name, unique prefix vs
+    full name, prefix of an alias ...), with the same attached value or none: identical results *)
+Lemma long_found_not_hyphen l v pos vaf st a s pr w :
+  parse_long_found c l v pos vaf st (Some a) = ROk (s, pr, w) -> pr <> PRMaybeHyphen.
+Proof.
+  unfold parse_long_found. destruct (a_takes_value a).
+  - destruct (parse_opt_value c ILong v a (is_some v) st) as [x|e s0|n] eqn:P; cbn [rbind]; try discriminate.
+    intros H; inversion H; subst.
+    destruct (pov_kinds c _ _ _ _ _ _ P) as [[E _]|K]; [rewrite E; discriminate|].
+    destruct (snd x); cbn in K; try contradiction; discriminate.
+  - destruct v as [rst|].
+    + intros H; inversion H; subst. discriminate.
+    + destruct (react c (Some ILong) SCmdLine a [] None st) as [[s1 p1]|e s0|n] eqn:R; cbn [rbind fst snd]; try discriminate.
+      apply react_ok_pr in R. subst p1. intros H; inversion H; subst. discriminate.
+Qed.
+
+Lemma after_long_tok rec rest tok tok' ls s pr w : pr <> PRMaybeHyphen ->
+  finish_iter c rec rest tok (match pr with PRNoArg => RPanic 153 | _ => after_flag c rec rest ls (s, pr, w) end) =
+  finish_iter c rec rest tok' (match pr with PRNoArg => RPanic 153 | _ => after_flag c rec rest ls (s, pr, w) end).
+Proof.
+  intros NH. destruct pr; try congruence; unfold after_flag, finish_iter; try reflexivity;
+    destruct (resolve_pending_ignore c s); reflexivity.
+Qed.
+
+Theorem long_respell l1 l2 v a tokA tokB rest ls st :
+  flag_site c ls tokA -> flag_site c ls tokB ->
+  to_long tokA = Some (l1, true, v) -> to_long tokB = Some (l2, true, v) ->
+  (is_nil l1 && negb (is_some v)) = false -> (is_nil l2 && negb (is_some v)) = false ->
+  lookup_long c l1 = Some a -> lookup_long c l2 = Some a ->
+  parse_loop c (tokA :: rest) ls st = parse_loop c (tokB :: rest) ls st.
+Proof.
+  intros [T [Hy [PA EA]]] [_ [_ [PB EB]]] TA TB NA NB LA LB.
+  rewrite !parse_loop_cons. unfold iteration, phase1. rewrite T. cbv zeta. rewrite PA, PB, !if_same.
+  unfold classify. rewrite EA, EB, TA, TB, !parse_long_arg_unfold.
+  destruct (state_arg c (l_pst ls)) as [sa|e s|n]; cbn [rbind]; [|contradiction..].
+  assert (HH : match sa with Some b => a_hyphen b | None => false end = false).
+  { destruct sa as [b|]; [exact Hy|reflexivity]. }
+  rewrite HH. cbn [negb]. rewrite NA, NB, LA, LB.
+  change (parse_long_found c l1 v (l_pos ls) (l_vaf ls) st (Some a))
+    with (parse_long_found c l2 v (l_pos ls) (l_vaf ls) st (Some a)).
+  destruct (parse_long_found c l2 v (l_pos ls) (l_vaf ls) st (Some a)) as [[[s1 p1] w1]|e s|n] eqn:F; cbn [rbind fst snd]; try reflexivity.
+  apply after_long_tok. apply (long_found_not_hyphen _ _ _ _ _ _ _ _ _ F).
+Qed.
+
+(** the property's wording, for a visible or hidden alias *)
+Theorem long_alias_vs_name a l0 l vis v tokA tokB rest ls st :
+  long_unique c -> In a (c_args c) -> a_index a = None ->
+  a_long a = Some l0 -> In (l, vis) (a_aliases a) ->
+  flag_site c ls tokA -> flag_site c ls tokB ->
+  to_long tokA = Some (l, true, v) -> to_long tokB = Some (l0, true, v) ->
+  (is_nil l && negb (is_some v)) = false -> (is_nil l0 && negb (is_some v)) = false ->
+  parse_loop c (tokA :: rest) ls st = parse_loop c (tokB :: rest) ls st.
+Proof.
+  intros U Ha Hi Hl Hal FA FB TA TB NA NB.
+  destruct (alias_is_key c a l0 l vis U Ha Hi Hl Hal) as [G1 G2].
+  apply (long_respell l l0 v a tokA tokB rest ls st FA FB TA TB NA NB).
+  - apply long_exact_wins. exact G1.
+  - apply long_exact_wins. rewrite <- G2. exact G1.
+Qed.
+
+(** a prefix that inference resolves (it is then the only candidate, [C08_infer_unique]) vs any exact key
+    of the same argument *)
+Theorem long_prefix_vs_name a p l0 v tokA tokB rest ls st :
+  lookup_long c p = Some a -> get_long c l0 = Some a ->
+  flag_site c ls tokA -> flag_site c ls tokB ->
+  to_long tokA = Some (p, true, v) -> to_long tokB = Some (l0, true, v) ->
+  (is_nil p && negb (is_some v)) = false -> (is_nil l0 && negb (is_some v)) = false ->
+  parse_loop c (tokA :: rest) ls st = parse_loop c (tokB :: rest) ls st.
+Proof.
+  intros LP G FA FB TA TB NA NB.
+  apply (long_respell p l0 v a tokA tokB rest ls st FA FB TA TB NA NB LP). apply long_exact_wins. exact G.
+Qed.
+
+(** short alias vs short name (first letter of a cluster, the rest of the cluster unchanged) *)
+Lemma short_loop_head r1 r2 ch1 ch2 r' a ret vaf st :
+  sf_next r1 = Some (inl ch1, r') -> sf_next r2 = Some (inl ch2, r') ->
+  get_short c ch1 = Some a -> get_short c ch2 = Some a ->
+  short_loop c (S (length r1)) r1 ret vaf st = short_loop c (S (length r2)) r2 ret vaf st.
+Proof.
+  intros N1 N2 G1 G2. cbn [short_loop]. rewrite N1, N2, G1, G2.
+  apply sf_next_shrinks' in N1. apply sf_next_shrinks' in N2.
+  destruct (negb (a_takes_value a)).
+  - destruct (react c (Some IShort) SCmdLine a [] None st) as [x|e s|n]; cbn [rbind]; try reflexivity.
+    apply short_loop_fuel; assumption.
+  - destruct (match match r' with [] => None | _ => Some r' end with
+              | Some (61 :: v) => (Some v, true)
+              | _ => (match r' with [] => None | _ => Some r' end, false) end) as [val he].
+    destruct (parse_opt_value c IShort val a he st) as [x|e s|n]; cbn [rbind]; try reflexivity.
+    destruct (snd x); try reflexivity. apply short_loop_fuel; assumption.
+Qed.
+
+Theorem short_respell ch1 ch2 a r1 r2 r' tokA tokB rest ls st :
+  no_short_subs c ->
+  short_site c ls tokA -> short_site c ls tokB ->
+  to_short tokA = Some r1 -> sf_next r1 = Some (inl ch1, r') ->
+  to_short tokB = Some r2 -> sf_next r2 = Some (inl ch2, r') ->
+  get_short c ch1 = Some a -> get_short c ch2 = Some a -> fs_skip st = 0 ->
+  parse_loop c (tokA :: rest) ls st = parse_loop c (tokB :: rest) ls st.
+Proof.
+  intros NS SA SB TA N1 TB N2 G1 G2 FS.
+  rewrite !parse_loop_cons. unfold iteration.
+  rewrite (phase1_short c _ _ ls tokA r1 st SA TA FS), (phase1_short c _ _ ls tokB r2 st SB TB FS).
+  rewrite (short_loop_head r1 r2 ch1 ch2 r' a PRNoArg (l_vaf ls) st N1 N2 G1 G2).
+  destruct (short_loop c (S (length r2)) r2 PRNoArg (l_vaf ls) st) as [[[s2 p2] v2]|e s|n] eqn:SL; cbn [rbind]; try reflexivity.
+  apply after_short_kind; try reflexivity.
+  assert (NE : r2 <> []) by (intros E; rewrite E in N2; discriminate N2).
+  apply (short_loop_kind c NS _ _ _ _ _ _ _ _ (or_introl NE) SL).
+Qed.
+End Names.
+
+(** ** a whole cluster of flags = the flags one by one *)
+Section Singles.
+Variable c : cmd.
+
+(** an ASCII flag letter (other than [-]) that takes no value *)
+Definition flag_ch (ch : N) : Prop :=
+  ch < 128 /\ ch <> 45 /\ exists a, get_short c ch = Some a /\ a_takes_value a = false.
+(** no token starting with [-] is taken for a subcommand name *)
+Definition dash_not_sub : Prop := forall t vaf, possible_subcommand c (45 :: t) vaf = None.
+
+Lemma to_short_dash ch r : ch <> 45 -> to_short (45 :: ch :: r) = Some (ch :: r).
+Proof.
+  intros NE. unfold to_short, strip_prefix, DASH. cbn [starts_with length skipn].
+  change ((45 =? 45) && true) with true. cbn iota. cbn [starts_with is_nil].
+  apply N.eqb_neq in NE. rewrite NE. reflexivity.
+Qed.
+
+Lemma single_flag_step ch a X ls st :
+  dash_not_sub -> l_trailing ls = false -> l_pst ls = PSValuesDone -> no_hyphen_pos c (l_pos ls) ->
+  ch < 128 -> ch <> 45 -> get_short c ch = Some a -> a_takes_value a = false -> fs_skip st = 0 ->
+  parse_loop c ([45; ch] :: X) ls st =
+  (do x <- react c (Some IShort) SCmdLine a [] None st;
+   parse_loop c X (mkL PSValuesDone (l_pos ls) true false) (fst x)).
+Proof.
+  intros DS T PV NH LT NE GS TV FS.
+  assert (SS : short_site c ls [45; ch]) by (repeat split; try assumption; apply DS).
+  rewrite parse_loop_cons. unfold iteration.
+  rewrite (phase1_short c _ _ ls [45; ch] [ch] st SS (to_short_dash ch [] NE) FS). cbn [length].
+  rewrite (short_loop_flag_step c 1 [ch] ch [] a PRNoArg (l_vaf ls) st (sf_next_ascii ch [] LT) GS TV).
+  destruct (react c (Some IShort) SCmdLine a [] None st) as [[s1 p1]|e s|n] eqn:R; cbn [rbind fst snd]; try reflexivity.
+  apply react_ok_pr in R. subst p1. reflexivity.
+Qed.
+
+Theorem cluster_vs_singles : no_short_subs c -> dash_not_sub ->
+  forall chs ch0 rest ls st,
+  Forall flag_ch (ch0 :: chs) ->
+  l_trailing ls = false -> l_pst ls = PSValuesDone -> no_hyphen_pos c (l_pos ls) -> fs_skip st = 0 ->
+  parse_loop c ((45 :: ch0 :: chs) :: rest) ls st =
+  parse_loop c (map (fun ch => [45; ch]) (ch0 :: chs) ++ rest) ls st.
+Proof.
+  intros NS DS. induction chs as [|ch1 chs IH]; intros ch0 rest ls st FA T PV NH FS; [reflexivity|].
+  inversion FA as [|? ? [LT0 [NE0 [a0 [G0 TV0]]]] FA']; subst.
+  inversion FA' as [|? ? [LT1 [NE1 _]] _]; subst.
+  assert (SS : forall t, short_site c ls (45 :: t)) by (intros t; repeat split; try assumption; apply DS).
+  etransitivity; [apply (cluster_vs_split c ch0 a0 (ch0 :: ch1 :: chs) [ch0] (ch1 :: chs)
+             (45 :: ch0 :: ch1 :: chs) [45; ch0] (45 :: ch1 :: chs) rest ls st NS (SS _) (SS _) (DS _ _)
+             (to_short_dash ch0 _ NE0) (sf_next_ascii ch0 _ LT0) ltac:(discriminate)
+             (to_short_dash ch0 [] NE0) (sf_next_ascii ch0 [] LT0) (to_short_dash ch1 _ NE1) G0 TV0 FS)|].
+  cbn [map app].
+  etransitivity; [apply (single_flag_step ch0 a0 _ ls st DS T PV NH LT0 NE0 G0 TV0 FS)|].
+  etransitivity; [|symmetry; apply (single_flag_step ch0 a0 _ ls st DS T PV NH LT0 NE0 G0 TV0 FS)].
+  destruct (react c (Some IShort) SCmdLine a0 [] None st) as [[s1 p1]|e s|n] eqn:R; cbn [rbind fst]; try reflexivity.
+  apply (IH ch1 rest _ s1 FA'); try reflexivity; [exact NH|].
+  rewrite (react_fs _ _ _ _ _ _ _ _ _ R). exact FS.
+Qed.
+End Singles.
+
+(** a decidable sufficient condition for [dash_not_sub]: no subcommand name or alias starts with [-] *)
+Definition no_dash_names (c : cmd) : bool :=
+  forallb (fun s => forallb (fun n => negb (match n with 45 :: _ => true | _ => false end)) (c_name s :: all_aliases s)) (c_subs c).
+
+Lemma is_prefix_dash t n : match n with 45 :: _ => true | _ => false end = false -> is_prefix (45 :: t) n = false.
+Proof.
+  unfold is_prefix. destruct n as [|x u]; [reflexivity|]. cbn [starts_with].
+  destruct (x =? 45) eqn:X; [|reflexivity]. apply N.eqb_eq in X. subst x. discriminate.
+Qed.
+
+Lemma beq_dash t n : match n with 45 :: _ => true | _ => false end = false -> beq n (45 :: t) = false.
+Proof.
+  intros H. apply beq_neq. intros E. subst n. discriminate.
+Qed.
+
+Lemma dash_not_sub_of_b c : no_dash_names c = true -> dash_not_sub c.
+Proof.
+  unfold no_dash_names. intros H t vaf. rewrite forallb_forall in H.
+  assert (HS : forall s, In s (c_subs c) -> sub_pick (45 :: t) s = None /\ aliases_to s (45 :: t) = false).
+  { intros s Hs. specialize (H s Hs). rewrite forallb_forall in H.
+    assert (HN : forall n, In n (c_name s :: all_aliases s) -> match n with 45 :: _ => true | _ => false end = false).
+    { intros n Hn. specialize (H n Hn). apply negb_true_iff in H. exact H. }
+    split.
+    - unfold sub_pick. rewrite (is_prefix_dash t (c_name s) (HN _ (or_introl eq_refl))).
+      destruct (find (is_prefix (45 :: t)) (all_aliases s)) as [n|] eqn:F; [|reflexivity].
+      apply find_some in F. destruct F as [Hin Hp]. rewrite (is_prefix_dash t n (HN _ (or_intror Hin))) in Hp. discriminate.
+    - unfold aliases_to. rewrite (beq_dash t (c_name s) (HN _ (or_introl eq_refl))). cbn [orb].
+      destruct (existsb (beq (45 :: t)) (all_aliases s)) eqn:X; [|reflexivity].
+      apply existsb_exists in X. destruct X as [n [Hin Hb]]. apply beq_eq in Hb. subst n.
+      specialize (HN _ (or_intror Hin)). discriminate. }
+  rewrite possible_subcommand_unfold.
+  destruct (negb (utf8_valid (45 :: t))); [reflexivity|].
+  destruct (is_set s_args_negate_subs c && vaf); [reflexivity|].
+  assert (FM : Cmd.filter_map (sub_pick (45 :: t)) (c_subs c) = []).
+  { clear H. induction (c_subs c) as [|s l IH]; [reflexivity|]. cbn [Cmd.filter_map].
+    destruct (HS s (or_introl eq_refl)) as [-> _]. apply IH. intros s' Hs'. apply HS. right. exact Hs'. }
+  assert (FS : find_subcommand c (45 :: t) = None).
+  { unfold find_subcommand. destruct (find (fun s => aliases_to s (45 :: t)) (c_subs c)) as [s|] eqn:F; [|reflexivity].
+    apply find_some in F. destruct F as [Hin Ha]. destruct (HS s Hin) as [_ E]. congruence. }
+  rewrite FM, FS. destruct (is_set s_infer_sub c); reflexivity.
+Qed.
+
+(** a decidable sufficient condition for [no_short_subs] *)
+Definition no_short_subs_b (c : cmd) : bool :=
+  forallb (fun s => negb (is_some (c_short_flag s)) && is_nil (c_short_flag_aliases s)) (c_subs c).
+Lemma no_short_subs_of_b c : no_short_subs_b c = true -> no_short_subs c.
+Proof.
+  unfold no_short_subs_b, no_short_subs, find_short_subcmd. intros H ch. rewrite forallb_forall in H.
+  destruct (find (fun s => short_flag_aliases_to s ch) (c_subs c)) as [s|] eqn:F; [|reflexivity].
+  apply find_some in F. destruct F as [Hin Ha]. specialize (H s Hin). apply andb_true_iff in H. destruct H as [H1 H2].
+  unfold short_flag_aliases_to in Ha. destruct (c_short_flag s); [discriminate|].
+  destruct (c_short_flag_aliases s); [discriminate|discriminate].
+Qed.
+
+(** * Line-level corollaries: the occurrence at the head of the command line, through [parse_top] *)
+Section Lines.
+Variable c0 : cmd.
+Variable bin : bytes.
+Hypothesis NB : is_set s_no_binary_name c0 = false.
+Let c := build_self (top_cmd c0 bin).
+Hypothesis IE : is_set s_ignore_errors c = false.
+
+Theorem short_space_vs_att_top ch a r b t rA rB tokA tokB rest x0 :
+  is_set s_sub_precedence c = false ->
+  short_site c ls_top tokA -> short_site c ls_top tokB ->
+  to_short tokA = Some rA -> sf_next rA = Some (inl ch, b :: t) -> b <> 61 ->
+  to_short tokB = Some rB -> sf_next rB = Some (inl ch, []) ->
+  get_short c ch = Some a -> single_opt c a r -> plain_value a (b :: t) ->
+  react c (Some IShort) SCmdLine a [b :: t] None ps_new = ROk x0 ->
+  parse_top c0 (bin :: tokB :: (b :: t) :: rest) = parse_top c0 (bin :: tokA :: rest).
+Proof.
+  intros. apply (parse_top_lift c0 bin _ _ NB IE).
+  apply (short_space_vs_att c ch a r b t rA rB tokA tokB rest ls_top ps_new x0); try assumption. reflexivity.
+Qed.
+
+Theorem short_eq_vs_att_top ch a b t rA rC tokA tokC rest :
+  short_site c ls_top tokA -> short_site c ls_top tokC ->
+  to_short tokA = Some rA -> sf_next rA = Some (inl ch, b :: t) -> b <> 61 ->
+  to_short tokC = Some rC -> sf_next rC = Some (inl ch, 61 :: b :: t) ->
+  get_short c ch = Some a -> a_takes_value a = true -> a_req_eq a = false ->
+  parse_top c0 (bin :: tokC :: rest) = parse_top c0 (bin :: tokA :: rest).
+Proof.
+  intros. apply (parse_top_lift c0 bin _ _ NB IE). apply res_rel_eq.
+  apply (short_eq_vs_att c ch a b t rA rC tokA tokC rest ls_top ps_new); try assumption. reflexivity.
+Qed.
+
+Theorem cluster_vs_singles_top chs ch0 rest :
+  no_short_subs c -> dash_not_sub c -> Forall (flag_ch c) (ch0 :: chs) -> no_hyphen_pos c 1 ->
+  parse_top c0 (bin :: (45 :: ch0 :: chs) :: rest) = parse_top c0 (bin :: map (fun ch => [45; ch]) (ch0 :: chs) ++ rest).
+Proof.
+  intros NS DS FA NH. apply (parse_top_lift c0 bin _ _ NB IE). apply res_rel_eq.
+  apply (cluster_vs_singles c NS DS chs ch0 rest ls_top ps_new FA); try reflexivity. exact NH.
+Qed.
+
+Theorem long_respell_top l1 l2 v a tokA tokB rest :
+  flag_site c ls_top tokA -> flag_site c ls_top tokB ->
+  to_long tokA = Some (l1, true, v) -> to_long tokB = Some (l2, true, v) ->
+  (is_nil l1 && negb (is_some v)) = false -> (is_nil l2 && negb (is_some v)) = false ->
+  lookup_long c l1 = Some a -> lookup_long c l2 = Some a ->
+  parse_top c0 (bin :: tokA :: rest) = parse_top c0 (bin :: tokB :: rest).
+Proof.
+  intros. apply (parse_top_lift c0 bin _ _ NB IE). apply res_rel_eq.
+  apply (long_respell c l1 l2 v a tokA tokB rest ls_top ps_new); assumption.
+Qed.
+
+Theorem short_respell_top ch1 ch2 a r1 r2 r' tokA tokB rest :
+  no_short_subs c -> short_site c ls_top tokA -> short_site c ls_top tokB ->
+  to_short tokA = Some r1 -> sf_next r1 = Some (inl ch1, r') ->
+  to_short tokB = Some r2 -> sf_next r2 = Some (inl ch2, r') ->
+  get_short c ch1 = Some a -> get_short c ch2 = Some a ->
+  parse_top c0 (bin :: tokA :: rest) = parse_top c0 (bin :: tokB :: rest).
+Proof.
+  intros. apply (parse_top_lift c0 bin _ _ NB IE). apply res_rel_eq.
+  apply (short_respell c ch1 ch2 a r1 r2 r' tokA tokB rest ls_top ps_new); try assumption. reflexivity.
+Qed.
+End Lines.
+
+(** * Non-vacuity of the short / cluster / name theorems (command [exl]) *)
+Definition t_o : bytes := [45; 111].
+Definition t_ov : bytes := [45; 111; 118].
+Definition t_o_eq_v : bytes := [45; 111; 61; 118].
+
+Example ex_short_hyps :
+  short_site exl ls_top t_ov /\ short_site exl ls_top t_o /\ short_site exl ls_top t_o_eq_v /\
+  to_short t_ov = Some [111; 118] /\ sf_next [111; 118] = Some (inl 111, [118]) /\ 118 <> 61 /\
+  to_short t_o = Some [111] /\ sf_next [111] = Some (inl 111, []) /\
+  to_short t_o_eq_v = Some [111; 61; 118] /\ sf_next [111; 61; 118] = Some (inl 111, [61; 118]) /\
+  get_short exl 111 = Some exl_opt /\ plain_value exl_opt [118] /\
+  (exists x0, react exl (Some IShort) SCmdLine exl_opt [[118]] None ps_new = ROk x0) /\
+  out_ok (parse_top exl_cmd [[112]; t_o; t_v; t_run]) = true /\
+  parse_top exl_cmd [[112]; t_o; t_v; t_run] = parse_top exl_cmd [[112]; t_o_eq_v; t_run].
+Proof.
+  assert (SS : forall t, possible_subcommand exl t false = None -> short_site exl ls_top t).
+  { intros t H. split; [reflexivity|]. split; [reflexivity|]. split; [vm_compute; auto|exact H]. }
+  split; [apply SS; vm_compute; reflexivity|]. split; [apply SS; vm_compute; reflexivity|].
+  split; [apply SS; vm_compute; reflexivity|].
+  split; [vm_compute; reflexivity|]. split; [vm_compute; reflexivity|]. split; [discriminate|].
+  split; [vm_compute; reflexivity|]. split; [vm_compute; reflexivity|].
+  split; [vm_compute; reflexivity|]. split; [vm_compute; reflexivity|].
+  split; [vm_compute; reflexivity|]. split; [vm_compute; auto|].
+  split; [eexists; vm_compute; reflexivity|]. split; vm_compute; reflexivity.
+Qed.
+
+Example ex_cluster_hyps :
+  no_short_subs exl /\ dash_not_sub exl /\ Forall (flag_ch exl) [97; 98] /\ no_hyphen_pos exl 1 /\
+  out_ok (parse_top exl_cmd [[112]; [45; 97; 98]; t_f; t_run]) = true /\
+  parse_top exl_cmd [[112]; [45; 97; 98]; t_f; t_run] = parse_top exl_cmd [[112]; [45; 97]; [45; 98]; t_f; t_run].
+Proof.
+  split; [apply no_short_subs_of_b; vm_compute; reflexivity|].
+  split; [apply dash_not_sub_of_b; vm_compute; reflexivity|].
+  split.
+  { constructor; [|constructor; [|constructor]]; (split; [reflexivity|]); (split; [discriminate|]);
+    eexists; split; vm_compute; reflexivity. }
+  split; [vm_compute; auto|]. split; vm_compute; reflexivity.
+Qed.
+
+(** hidden alias [--alp] vs [--alpha]; inferred prefix [--op=v] vs [--opt=v]; short alias [-A] vs [-a] *)
+Example ex_names_hyps :
+  flag_site exl ls_top [45; 45; 97; 108; 112] /\ flag_site exl ls_top [45; 45; 97; 108; 112; 104; 97] /\
+  get_long exl [97; 108; 112] = get_long exl [97; 108; 112; 104; 97] /\ get_long exl [97; 108; 112] <> None /\
+  get_long exl [111; 112] = None /\ lookup_long exl [111; 112] = Some exl_opt /\ get_long exl [111; 112; 116] = Some exl_opt /\
+  to_long [45; 45; 111; 112; 61; 118] = Some ([111; 112], true, Some [118]) /\
+  get_short exl 65 = get_short exl 97 /\ get_short exl 65 <> None /\
+  out_ok (parse_top exl_cmd [[112]; [45; 45; 97; 108; 112]; t_run]) = true /\
+  parse_top exl_cmd [[112]; [45; 45; 97; 108; 112]; t_run] = parse_top exl_cmd [[112]; [45; 45; 97; 108; 112; 104; 97]; t_run] /\
+  parse_top exl_cmd [[112]; [45; 45; 111; 112; 61; 118]; t_run] = parse_top exl_cmd [[112]; t_opt_eq_v; t_run] /\
+  parse_top exl_cmd [[112]; [45; 65]; t_run] = parse_top exl_cmd [[112]; [45; 97]; t_run].
+Proof.
+  split; [vm_compute; auto|]. split; [vm_compute; auto|].
+  split; [vm_compute; reflexivity|]. split; [vm_compute; discriminate|].
+  split; [vm_compute; reflexivity|]. split; [vm_compute; reflexivity|]. split; [vm_compute; reflexivity|].
+  split; [vm_compute; reflexivity|]. split; [vm_compute; reflexivity|]. split; [vm_compute; discriminate|].
+  split; [vm_compute; reflexivity|]. split; [vm_compute; reflexivity|]. split; vm_compute; reflexivity.
+Qed.
